@@ -53,9 +53,10 @@ static void vf_sample(const char *fmt, ...)
 }
 
 static char vf_ctx[256] = "(no case context)";      /* harnesses may describe the running case here: printed if a worker crashes */
+static void (*vf_crash_cb)(void);        /* optional: fills vf_ctx from cheap per-case globals at the moment of the crash */
 static void vf_crash_handler(int sig)
 {
-    char b[400]; int n = snprintf(b, sizeof b, "FAIL crash/%s | process died with signal %d while running this case\n", vf_ctx, sig);
+    char b[400]; if (vf_crash_cb) vf_crash_cb(); int n = snprintf(b, sizeof b, "FAIL crash/%s | process died with signal %d while running this case\n", vf_ctx, sig);
     if (n > 0) { ssize_t w = write(1, b, (size_t) n); (void) w; }
     _exit(1);
 }
